@@ -288,6 +288,7 @@ pub fn render(items: &[Item], l: &Layout, dir: &Path, which: usize) -> (String, 
 }
 
 pub fn load(main: &str, name: &str) -> Result<Config, String> {
+    let _call = crate::report::enter(main.as_bytes());
     let tree = parse_conf(main, name).map_err(|e| format!("parse: {}", e))?;
     Config::from_tree(tree).map_err(|e| format!("validate: {}", e))
 }
